@@ -948,6 +948,35 @@ impl Check for WCheck {
         }
         let mut plan = lsim::plan::generate(run_seed, &prof);
         plan.cfg.conn_timeout_ms = 5000;
+        if self.prop == "C06" || self.prop == "C10" {
+            // mode switches at run time on a mostly idle session: the windows the keepalives
+            // report must freeze whenever the configured mode is classic
+            use crate::lsim::plan::{Action, TimedAction};
+            let mut r = crate::prng::Rng::new(run_seed ^ 0xC1A5_51C);
+            plan.cfg.classic = r.chance(0.3);
+            plan.actions.retain(|a| !matches!(a.kind, Action::Control { .. }));
+            let quiet_from = r.range(2_000, 5_000);
+            if r.chance(0.4) {
+                plan.actions.retain(|a| !matches!(a.kind, Action::Burst { .. } | Action::Rexmit { .. }));
+            } else {
+                plan.actions.retain(|a| !matches!(a.kind, Action::Burst { .. } | Action::Rexmit { .. }) || a.t + 1500 < quiet_from);
+                for a in plan.actions.iter_mut() {
+                    if let Action::Burst { n, pps, .. } = &mut a.kind {
+                        *n = (*n).min((*pps).max(1));
+                    }
+                }
+            }
+            let mut t = quiet_from;
+            let mut classic = plan.cfg.classic;
+            for _ in 0..r.range(1, 3) {
+                classic = !classic;
+                let line = format!(r#"{{"jsonrpc":"2.0","method":"set_mode","params":{{"mode":"{}"}}}}"#, if classic { "classic" } else { "enhanced" });
+                plan.actions.push(TimedAction { t, kind: Action::Control { line } });
+                t += r.range(3_200, 6_000);
+            }
+            plan.horizon_ms = t + 1_000;
+            plan.actions.sort_by_key(|a| a.t);
+        }
         if self.prop == "C19" {
             // 1..4 reloads inside the traffic, at least 2.5 s apart (one housekeeping tick applies each)
             use crate::lsim::plan::{Action, TimedAction, gen_reload_text};
@@ -1171,6 +1200,14 @@ pub fn all() -> Vec<Box<dyn Check>> {
             probes: &["c03l.decision_with_usable_link", "c03l.every_usable_link_quality_gated", "c03l.single_link_left"],
         });
         v.insert(pos, Box::new(Multi { id: "C03", parts: vec![k, l], weights: vec![20, 1] }));
+    }
+    // C06 / C10: "classic housekeeping moves no window" on the real loop (run-time mode switches)
+    for (prop, wq) in [("C06", 60u64), ("C10", 60u64)] {
+        let pos = v.iter().position(|c| c.id() == prop).unwrap();
+        let first = v.remove(pos);
+        let weight = if prop == "C06" { 300 } else { 6 };
+        let w = Box::new(WCheck { prop, runs_quick: wq, runs_thorough: 3000 });
+        v.insert(pos, Box::new(Multi { id: prop, parts: vec![first, w], weights: vec![weight, 1] }));
     }
     // C08: engine L (the whole recovery loop, long horizons) plus the tear-down cause on the real loop
     {
